@@ -265,11 +265,11 @@ func (s *SoftwrapScanner) Scan() bool {
 		if wordLen > s.width {
 			s.rest = []vaxis.Cell{}
 			// Append characters to token until we reach the end
-			for _, char := range word {
-				if w >= s.width {
-					// Append the rest to rest
-					s.rest = append(s.rest, char)
-					continue
+			for i, char := range word {
+				if w >= s.width || (w > 0 && w+uint16(char.Width) > s.width) {
+					// The line is full. Append the rest to rest
+					s.rest = append(s.rest, word[i:]...)
+					break
 				}
 				s.token = append(s.token, char)
 				w += uint16(char.Width)
